@@ -22,15 +22,17 @@ def run(ctx, w):
     ctx.rule("L1", "Vt::feed_str and Vt::resize call Terminal::gc on every path to return")
     for api in (WD.VT_FEED_STR, WD.VT_RESIZE):
         vb = w.body(api)
-        sites = [cs for cs in E.call_sites(api) if cs.callee == T.term_gc]
-        ok = len(sites) >= 1 and vb.every_path_to_return_hits((0, 0), {s.point for s in sites}, include_start=True)
-        ctx.check(ok, "L1", api, "%s can return without running the gc: the scrollback is not trimmed after that call" % api, loc=w.fn_loc(api), sample={"api": api, "gc_calls": len(sites)})
-        # and the gc runs after everything that can grow the buffer in this call
-        for cs in E.call_sites(api):
-            if cs.local and cs.callee != T.term_gc and any(p[-1] == S.lines_field for p in cs.W):
-                ctx.check(all(vb.point_dominates(cs.point, s.point) for s in sites), "L1", api + ":order:" + cs.callee, "%s runs %s (which can grow the scrollback) after the gc" % (api, cs.callee), loc=w.site_loc(cs))
-        for (pt, cdef, upvals) in E.closure_creations[api]:
-            ctx.check(all(vb.point_dominates(pt, s.point) for s in sites), "L1", api + ":order:" + cdef, "%s feeds input after the gc ran" % api, loc=w.stmt_loc(api, pt))
+        ep = shared.Epilogue(w, S, api)
+        ok = ep.on_every_path(T.term_gc)
+        ctx.check(ok, "L1", api, "%s can return without running the gc: the scrollback is not trimmed after that call" % api, loc=w.fn_loc(api), sample={"api": api, "epilogue_in": ep.host})
+        gs = ep.site_in_api(T.term_gc)
+        if gs is not None:
+            # and the gc runs after everything that can grow the buffer in this call
+            for cs in E.call_sites(api):
+                if cs.local and cs is not gs and cs.callee not in (T.term_gc, ep.host) and any(p[-1] == S.lines_field for p in cs.W):
+                    ctx.check(not vb.path_exists(gs.point, cs.point), "L1", api + ":order:" + cs.callee, "%s runs %s (which can grow the scrollback) after the gc" % (api, cs.callee), loc=w.site_loc(cs))
+            for (pt, cdef, upvals) in E.closure_creations[api]:
+                ctx.check(not vb.path_exists(gs.point, pt), "L1", api + ":order:" + cdef, "%s feeds input after the gc ran" % api, loc=w.stmt_loc(api, pt))
     ctx.floor("L1", 2, "entry points")
 
     # ---- L3 growth => flag -------------------------------------------------------------------
@@ -172,5 +174,5 @@ def run(ctx, w):
                 ctx.check(okp, "W7", "%s:%s" % (fn, shared.site_key(w, fn, cs.point)), "%s creates a primary-screen buffer with limit %s instead of the configured one" % (fn, w.tstr(fn, lim)), loc=w.site_loc(cs), sample={"fn": fn, "role": role})
             else:
                 ctx.violation("W7", "%s:%s" % (fn, shared.site_key(w, fn, cs.point)), "cannot tell the role of the buffer created in %s" % fn, loc=w.site_loc(cs))
-    ctx.floor("W7", 5, "buffer construction sites")
+    ctx.floor("W7", 3, "buffer construction sites")
     c14.trim_rules(ctx, w, S, R, T)
